@@ -18,21 +18,35 @@ RULE = ("every case writes REAL files below a fresh tempfile.mkdtemp() root (out
         "header_obj_from), under both values of general.fits.flip_for_ds9; the directory tree and the raw content of every file "
         "are re-read with astropy after the write and compared with the model's file-system state; contents are non-symmetric "
         "(all cells distinct), pixel scales isotropic and anisotropic, values with negative, tiny (2^-60, 5e-324) and huge (2^70, 1e300) magnitudes, all exactly representable. "
+        "Phase 2: HISTORIES of one object (ops hist2 / hist1 / histm2 / histm1): the object is built once (Array2D / Kernel2D with store_native in {False, True} under "
+        "general.structures.native_binned_only in {false, true}; Array1D with store_native in {False, True}; Mask2D; Mask1D), then python-level steps are applied to it "
+        "(arithmetic with scalars and with a saved array, .native, .slim, .copy(), aliasing, obj[k] = v / obj[y, x] = v in place, toggling flip_for_ds9) and it is OBSERVED any number "
+        "of times (np.array(obj.native), hdu_for_output -> from_primary_hdu, output_to_fits -> from_fits on the tree left by the previous steps); the util functions are called twice with the "
+        "caller's same ndarray and dict. "
         "A case is non-trivial unless the array has a single cell; distinct = distinct JSON input.")
 EXHAUSTIVE = {
     "quick": "all shapes HxW <= 4x4 (incl. 1xN, Nx1) x flip x {Array2D, Kernel2D, Mask2D} x {file, hdu} route; all 1-D lengths 1..6 x flip "
              "x {Array1D, Mask1D} x {file, hdu}; all boolean masks with H*W <= 6 (Mask2D and masked Array2D through the hdu route, every third also through a file); all file-system "
              "scenarios {bare name, 1 dir, 2 dirs} x {directory absent, partly present, present} x {target absent, present} x overwrite "
-             "x flip x {relative, absolute path}; hdu index in [-3..2] on 1- and 2-HDU files and on assembled 1-, 2-, 3-HDU files (2-D and 1-D)",
-    "thorough": "as quick with shapes <= 6x6, masks with H*W <= 9 (sampled above 2^9), 1-D lengths 1..9, plus 10x the random budget",
+             "x flip x {relative, absolute path}; hdu index in [-3..2] on 1- and 2-HDU files and on assembled 1-, 2-, 3-HDU files (2-D and 1-D); "
+             "histories: 17 derivations x {slim, store_native, native_binned_only} x {Array2D, Kernel2D} x flip (one of 5 partially masked shapes each) and x store_native x flip for Array1D, each observed through np.array(.native), the HDU route and the file route; 11-13 re-use templates x storage x 3 shapes (2-D) and x store_native x 3 masks (1-D); 6 Mask2D templates x 6 shapes x flip; 4 Mask1D templates x 3 masks x flip; 130 random histories",
+    "thorough": "as quick with shapes <= 6x6, masks with H*W <= 9 (sampled above 2^9), 1-D lengths 1..9, plus 10x the random budget; histories: every derivation x storage x class x flip "
+                "on all 6 history shapes, every re-use template x storage x shape x flip, 1500 random histories",
+
 }
 TRUSTED = ["astropy FITS codec = identity on (float64 data, PIXSCALE* header cards); HDUList indexing = Python list indexing "
            "(oracle; exercised on every case: the harness re-reads every written file with astropy directly)",
            "file-system model Model.C16.fsys (os.path.split/exists, os.makedirs, os.remove, writeto) -- exercised on real "
            "directories by every file case; targets that are directories / directory parts that are files are outside the model",
            "correspondence harness harness/c16.py (generators, snapshot of the temporary tree, Fraction(float) conversion)",
-           "slim/native scatter of Array2D.native is modelled in its consuming form (C01 proves the scatter form equivalent)"]
-ASSUMPTIONS = ["the model follows the code after the repairs 9d3d532 (Array1D.hdu_for_output does not flip) and 770955c (PIXSCALEY / "
+           "slim/native scatter of Array2D.native is modelled in its consuming form (C01 proves the scatter form equivalent)",
+           "numpy elementwise arithmetic on a buffer = the NumOps operation on each element (python floats as scalars); with_new_array / copy() give value semantics, `other = obj` an alias "
+           "(the model tracks whether the two names denote the same object)"]
+ASSUMPTIONS = ["repair e8113b3 (fixes/C16_native_mask_nan.diff): the model zeroes masked pixels of a native buffer whatever they hold; the code before the repair multiplied by the inverted mask, so a "
+               "history that puts inf / NaN at a masked buffer position (c / arr on a natively stored masked array) was written with NaN there: reported as a violation on a tree without the repair",
+               "histories are generated only if every float operation they cause is exact at unmasked buffer positions (hist_ok); numpy broadcasting between a slim and a native buffer and the row "
+               "assignment obj[k] = v on a 2-D native buffer are outside the model and never generated",
+               "the model follows the code after the repairs 9d3d532 (Array1D.hdu_for_output does not flip) and 770955c (PIXSCALEY / "
                "PIXSCALEX cards for unequal scales; fixes/C16_*.diff): on a tree without them the 1-D hdu route under flip_for_ds9 and "
                "every anisotropic hdu/header case is reported as a violation",
                "header cards hold the pixel scale exactly: astropy formats a float card in 20 characters, so a scale needing more than "
